@@ -759,6 +759,11 @@ class C19(Property):
         "Flatland.C19.Proofs.init_depth",
         "Flatland.C19.Proofs.tabindex_increasing",
         "Flatland.C19.Proofs.scope_tabindex_increasing",
+        "Flatland.C19.Proofs.tag_given_step",
+        "Flatland.C19.Proofs.scope_tabindex_exact",
+        "Flatland.C19.Proofs.scopeGiven_eq_scopeHanded",
+        "Flatland.C19.Proofs.scope_tabindex_increasing_of_exact",
+        "Flatland.C19.Proofs.scope_tabindex_stop_number",
         "Flatland.C19.Proofs.prepareTag_handed",
         "Flatland.C19.Proofs.codeResolve_ne_rule",
         "Flatland.C19.Proofs.transformName_decision",
